@@ -1,0 +1,95 @@
+//go:build verif
+
+// Contracts for package plenccore, checked by /verif/engine (plencvc). This
+// file contains comments only and is compiled only under the verif build tag.
+
+package plenccore
+
+//@ func encoding/binary.Uvarint
+//@   safety C18 C04
+//@   loop 1 unroll 11                  # at most 10 bytes are consumed, the 11th only detects overflow
+//@   assigns nothing
+//@   ensures[C18,C04] -11 <= r1 && r1 <= 10 && r1 <= len(buf)
+//@   ensures[C18] forall u uint64 :: len(buf) >= vlen(u) && at(buf, 0, venc(u), 10) ==> r0 == u && r1 == vlen(u)
+//@   ensures[C18] r1 > 0 ==> buf[r1-1] < 128
+//@   ensures[C18,C04] len(buf) == 0 ==> r1 == 0
+
+//@ func plenccore.ReadVarUint
+//@   safety C18 C04
+//@   assigns nothing
+//@   ensures[C18,C04] -11 <= n && n <= 10 && n <= len(data)
+//@   ensures[C18] forall u uint64 :: len(data) >= vlen(u) && at(data, 0, venc(u), 10) ==> v == u && n == vlen(u)
+//@   ensures[C18] n > 0 ==> data[n-1] < 128
+//@   ensures[C18,C04] len(data) == 0 ==> n == 0
+
+//@ func plenccore.SizeVarUint
+//@   safety C18
+//@   assigns nothing
+//@   ensures[C18,C05] result == vlen(v)
+
+//@ func plenccore.AppendVarUint
+//@   safety C18 C11
+//@   loop 1 unroll 10                  # v >>= 7 on a uint64 reaches < 0x80 within 9 iterations
+//@   assigns nothing
+//@   appends[C18,C02,C05,C06,C11] data venc(v)
+
+//@ func plenccore.ZigZag
+//@   safety C18
+//@   assigns nothing
+//@   ensures[C18,C02] result == zz(v)
+
+//@ func plenccore.ZagZig
+//@   safety C18
+//@   assigns nothing
+//@   ensures[C18] zz(result) == v
+
+//@ func plenccore.ReadVarInt
+//@   safety C18 C04
+//@   assigns nothing
+//@   ensures[C18,C04] -11 <= n && n <= 10 && n <= len(data)
+//@   ensures[C18] forall s int64 :: len(data) >= vlen(zz(s)) && at(data, 0, venc(zz(s)), 10) ==> v == s && n == vlen(zz(s))
+//@   ensures[C18,C04] len(data) == 0 ==> n == 0
+
+//@ func plenccore.SizeVarInt
+//@   safety C18
+//@   assigns nothing
+//@   ensures[C18,C05] result == vlen(zz(v))
+
+//@ func plenccore.AppendVarInt
+//@   safety C18 C11
+//@   assigns nothing
+//@   appends[C18,C02,C05,C06,C11] data venc(zz(v))
+
+//@ func plenccore.ReadTag
+//@   safety C18 C04
+//@   assigns nothing
+//@   ensures[C18,C04] -11 <= n && n <= 10 && n <= len(data)
+//@   ensures[C18,C04] 0 <= wt && wt <= 7
+//@   ensures[C18] forall w uint8 :: forall i int :: validwt(w) && 0 <= i && i < (1 << 60) && len(data) >= vlen(tagval(w, i)) && at(data, 0, venc(tagval(w, i)), 10) \
+//@                   ==> uint8(wt) == w && index == i && n == vlen(tagval(w, i))
+//@   ensures[C18,C04] len(data) == 0 ==> n == 0
+
+//@ func plenccore.SizeTag
+//@   safety C18
+//@   assigns nothing
+//@   requires[C18,C08] 0 <= wt && wt <= 5 && 0 <= index && index < (1 << 60)
+//@   ensures[C18,C05] result == vlen(tagval(uint8(wt), index))
+
+//@ func plenccore.AppendTag
+//@   safety C18 C11
+//@   assigns nothing
+//@   requires[C18,C08] 0 <= wt && wt <= 5 && 0 <= index && index < (1 << 60)
+//@   appends[C18,C02,C05,C06,C11] data venc(tagval(uint8(wt), index))
+
+//@ func plenccore.Skip
+//@   safety C18 C04
+//@   assigns nothing
+//@   loop 1 unroll 11                  # range data: returns at i > 9 at the latest
+//@   loop 2 invariant[C18,C04] n <= offset && 0 < offset
+//@   loop 2 decreases count - i
+//@   ensures[C18,C04] r1 == nil ==> 0 < r0 && r0 <= len(data)
+//@   ensures[C18,C03] forall u uint64 :: wt == 0 && len(data) >= vlen(u) && at(data, 0, venc(u), 10) ==> r1 == nil && r0 == vlen(u)
+//@   ensures[C18,C03] wt == 1 && len(data) >= 8 ==> r1 == nil && r0 == 8
+//@   ensures[C18,C03] wt == 5 && len(data) >= 4 ==> r1 == nil && r0 == 4
+//@   ensures[C18,C03] forall l uint64 :: wt == 2 && l < (1 << 40) && len(data) >= vlen(l) + int(l) && at(data, 0, venc(l), 10) ==> r1 == nil && r0 == vlen(l) + int(l)
+//@   ensures[C18] wt != 0 && wt != 1 && wt != 2 && wt != 3 && wt != 5 ==> r1 != nil
